@@ -11,6 +11,7 @@ type itemPlan struct {
 	// cancel the context from inside attempt number cancelAt (-1: never)
 	cancelAt int
 	errRes   bool // the succeeding attempt returns an error Result (not a Go error)
+	sameErr  bool // every failing attempt of the item returns the SAME error value
 }
 
 type batchPlan struct {
@@ -77,6 +78,10 @@ func (b *sb) batch(p batchPlan) (int, []string) {
 			ip = p.items[i]
 		}
 		var rs []Resp
+		same := 0
+		if ip.sameErr {
+			same = b.errID()
+		}
 		for a, ok := range ip.outs {
 			var r Resp
 			if ok {
@@ -85,6 +90,8 @@ func (b *sb) batch(p batchPlan) (int, []string) {
 				} else {
 					r = rOk(vTok(1000 + 16*i + a))
 				}
+			} else if ip.sameErr {
+				r = rErr(same)
 			} else {
 				r = rErr(b.errID())
 			}
@@ -418,6 +425,40 @@ func genBatch(r *rng, tier, prop string, st *stats) []taggedScen {
 						}
 					}
 				}
+			}
+		}
+	}
+	// F6: the same error value on consecutive attempts (budgets 3 and 4): fail,fail,ok / fail,fail,fail,ok /
+	// all attempts fail, sequential and concurrent
+	for _, N := range []int{3, 4} {
+		for _, c := range []int{0, 2} {
+			for pat := 0; pat < 3; pat++ {
+				k := next()
+				n := 3
+				p := batchPlan{n: n, conc: c, N: N, fb: []string{"default", "user"}[k%2], exec: []string{"res", "any"}[k%2],
+					shape: "results", impl: impls[k%3], postAct: 5}
+				p.items = make([]itemPlan, n)
+				for i := range p.items {
+					p.items[i] = itemPlan{cancelAt: -1, fbOK: true}
+				}
+				var outs []bool
+				switch pat {
+				case 0:
+					outs = []bool{false, false, true}
+				case 1:
+					for a := 0; a < N-1; a++ {
+						outs = append(outs, false)
+					}
+					outs = append(outs, true)
+				default:
+					for a := 0; a < N+1; a++ {
+						outs = append(outs, false)
+					}
+				}
+				p.items[k%n] = itemPlan{outs: outs, cancelAt: -1, fbOK: true, sameErr: true}
+				ts := p.scen()
+				ts.tags = append(ts.tags, "same_error_on_consecutive_attempts")
+				out = append(out, ts)
 			}
 		}
 	}
